@@ -3,7 +3,7 @@
    transport bytes on every run; hdr_size / eom_bit come from the code (Gen/GenC01.v). *)
 From Coq Require Import ZArith List Bool.
 Import ListNotations.
-From V Require Import Base.Tree Base.Bytes C15.Model C01.Model C01.Spec C01.Proofs.
+From V Require Import Base.Tree Base.Bytes C15.Model C01.Model C01.Spec C01.Proofs C01.ProofsIntr.
 Open Scope Z_scope.
 
 (* One message: for EVERY packet size 9..65535, every channel id, every list of packages written in
@@ -34,5 +34,52 @@ Example C01_exact_multiple :
   end.
 Proof. vm_compute. split; reflexivity. Qed.
 
+(* Interrupted sends.  msg_qi ps q: the queue states between the QueuePackage calls of a message when calls may
+   have been interrupted (written-only queue, all packets of size ps, any number of complete packets in front of
+   the write position); it holds of the empty queue and is kept by QueuePackage under EVERY budget
+   (C01_interrupted_states).  From every such state, for every list of packages and EVERY budget per call
+   (None: live context; Some k: context done after k packet writes - the call then returns an error and the
+   client carries on), the writes of the QueuePackage calls followed by a live SendRemainingPackets are exactly the
+   writes of the uninterrupted message, and the final state is the same: nothing lost, duplicated or reordered,
+   EOM where it belongs. *)
+Theorem C01_interrupted_states : forall ps chan typ c st b o st' e, 9 <= ps -> msg_qi ps (tq st) ->
+  queue_package_b ps chan typ c st b = Some (o, st', e) -> msg_qi ps (tq st').
+Proof. exact interrupted_states. Qed.
+
+Theorem C01_interrupted_queue : forall ps chan typ pkgs st, 9 <= ps <= 65535 -> msg_qi ps (tq st) ->
+  exists outs st', send_message_b ps chan typ pkgs st = Some (outs, st') /\
+    send_message ps chan typ (map fst pkgs) st = Some (outs, st') /\ tq st' = empty_pq.
+Proof. exact interrupted_queue. Qed.
+
+(* ... hence, from the empty queue, the interrupted message satisfies the predicate of C01_message *)
+Theorem C01_interrupted_message : forall ps chan typ pkgs st,
+  9 <= ps <= 65535 -> 0 <= chan < 65536 -> 0 <= tnr st < 256 -> tq st = empty_pq -> payload_of (map fst pkgs) <> [] ->
+  exists outs st', send_message_b ps chan typ pkgs st = Some (outs, st') /    tx_ok ps typ chan (tnr st) (payload_of (map fst pkgs)) outs = true /    tq st' = empty_pq /\ tnr st' = (if 0 <? chan then (tnr st + zlen outs) mod 256 else tnr st).
+Proof. exact interrupted_message_ok. Qed.
+
+(* the budgeted definitions with live contexts are the fault-free ones *)
+Theorem C01_live_budget : forall ps chan typ pkgs st,
+  send_message_b ps chan typ (live_pkgs pkgs) st = send_message ps chan typ pkgs st.
+Proof. exact send_message_b_live. Qed.
+
+(* non-vacuity: body size 4; 9 bytes queued with a dead context (error, nothing written, three packets stay
+   queued), one more byte with a context that dies after one packet (error again), then the flush *)
+Example C01_interrupted_example :
+  match queue_package_b 12 1 3 [[1; 2]; [3; 4]; [5; 6; 7; 8; 9]] {| tq := empty_pq; tnr := 255 |} (Some 0%nat) with
+  | Some (o, st1, e) => o = [] /\ e = true /\ npk (tq st1) = 3 /      match queue_package_b 12 1 3 [[10]] st1 (Some 1%nat) with
+      | Some (o2, st2, e2) => o2 = [[3; 0; 0; 12; 0; 1; 255; 0; 1; 2; 3; 4]] /\ e2 = true /\ npk (tq st2) = 2
+      | None => False
+      end
+  | None => False
+  end /  match send_message_b 12 1 3 [([[1; 2]; [3; 4]; [5; 6; 7; 8; 9]], Some 0%nat); ([[10]], Some 1%nat)] {| tq := empty_pq; tnr := 255 |} with
+  | Some (outs, st') => outs = [[3; 0; 0; 12; 0; 1; 255; 0; 1; 2; 3; 4]; [3; 0; 0; 12; 0; 1; 0; 0; 5; 6; 7; 8]; [3; 1; 0; 10; 0; 1; 1; 0; 9; 10]] /\ tnr st' = 2
+  | None => False
+  end.
+Proof. vm_compute. repeat split; reflexivity. Qed.
+
 Print Assumptions C01_message.
 Print Assumptions C01_history.
+Print Assumptions C01_interrupted_states.
+Print Assumptions C01_interrupted_queue.
+Print Assumptions C01_interrupted_message.
+Print Assumptions C01_live_budget.
